@@ -304,8 +304,9 @@ def node_check(pid, tier, seed):
                     if changed:
                         variants.append(v2)
                 for vi, sch in enumerate(variants):
-                    # C19: the chain is in the state the previous release left it in (staking minimum commission raised by the v2.2.0 handler, older validators below it)
-                    jobs.append(dict(id='%s-%d-%d-%d' % (pid, si, r, vi), cfg=(dict(prev=True) if pid == 'C19' and (si + vi) % 3 != 0 else {}),
+                    # C19: the chain is in the state the previous release left it in (staking minimum commission raised by the v2.2.0 handler, older validators below it);
+                    # a third of the chains started from a genesis file without the (empty) section of x/upgrade
+                    jobs.append(dict(id='%s-%d-%d-%d' % (pid, si, r, vi), cfg=(dict(prev=True, **(dict(dropgen=['upgrade']) if (si + vi) % 3 == 1 else {})) if pid == 'C19' and (si + vi) % 3 != 0 else {}),
                                      blocks=shape_history(txs, sc['shape']), schedule=sch, upgradeAt=sc['upgradeAt']))
                     if pid == 'C19' and (si + r + vi) % 2 == 0:
                         # the same schedule over a state in which every custom store is populated (incl. a DID tombstone) before the upgrade block
